@@ -6,6 +6,12 @@ CHECKS = {
         text="Every obligation is proved for all integers (unbounded): the 2-d pairings of Szudzik, Rosenberg-Strong and Cantor and their projections are mutually inverse on N^2; nested 3-d pairing; Rosenberg-Strong n-d methods for d=1,2,3 including the integer-root correction loops (inductive invariants); Z<->N foldings; PairingToZd for d=2,3 over each pairing; PairingToZ1d for the three interval shapes and any call order; lazy_indices_product yields the mixed-radix digits of n for n < prod(sizes) (loop invariant over a symbolic number of iterations, sizes symbolic, 1..3 axes); StatesManager returns the admissible state of smallest remaining index and signals exhaustion only after the largest frontier index (quantified loop invariant over abstract is_outside / index->state).",
         note="Trusted: z3/cvc5, the pyvc interpreter and library models (math.isqrt exact; floor of an integer quotient = floor division; x**(1/d) a real d-th root), Python ints unbounded. Not covered deductively: HyperbolicPairing (integer factorisation; no contract within reach), PepisKalmar, Domain.compute_total_number_of_states_and_frontier for d>=2 (abstracted behind the frontier-index contract of StatesManager). Pigeonhole (injective map between finite sets of equal size is bijective) is used for lazy_indices_product with 3 axes only as a cross-check; surjectivity is also proved directly.",
     ),
+    "C17": dict(
+        level="proof",
+        technique="contract-based deductive verification: the real evaluate()/value()/process()/update() bodies are symbolically executed (pyvc) on objects built by the real constructors; identities and purity are obligations over all real strikes/paths discharged by z3 (LRA + uninterpreted exp/log with inverse/monotonicity instances)",
+        text="Full-domain (all real strikes, underlying values, barriers, notionals) for the scalar identities: call-put=forward, call spread and butterfly equal their call combinations, spread non-negative, digital call+put=1, notional linear. Path clauses (knock-in+knock-out=vanilla, value independent of the path evaluated before, identity vs log representation for 9 underlying classes incl. update(LOG)/update(IDENDITY) sequences, Mean between extremes, default time = first jump below threshold else +inf, n-th default times sorted) are proved for every path of length <= 4 / up to 3 names with symbolic values: complete in the values, bounded in the length.",
+        note="Trusted: z3, pyvc interpreter, numpy models (np.maximum = ite, argwhere/argpartition by exhaustive case split), A1 (floats as reals), exp/log axioms (inverse pair, strict monotonicity, exp(a-b)=exp(a)/exp(b)). Path length bound 4 (not a proof for longer paths). Known findings: Butterfly negative for unequal wings; Asian.value raises. Not covered: Rainbow, Ratchet, LookBack (always raises by design), Swaption/Cap/Bond (rate products), CDS (see C19).",
+    ),
 }
 NOT_APPLICABLE = {}
 HOOK_COMMITS = []
